@@ -5,6 +5,6 @@
    mapped to Big_int_Z functions — see /usr/lib/ocaml/coq/theories/extraction/ExtrOcamlZBigInt.v). *)
 Require Coq.extraction.Extraction.
 Require Import ExtrOcamlBasic ExtrOcamlString ExtrOcamlZBigInt.
-From D377 Require Import Model.Concrete Model.OpTable.
+From D377 Require Import Model.Concrete Model.OpTable Model.FieldTable Model.GadgetTable.
 Extraction Language OCaml.
-Extraction "model.ml" run_op OpTable.run op_sigs.
+Extraction "model.ml" run_op OpTable.run op_sigs run_field field_op_names run_gadget.
